@@ -42,6 +42,12 @@ func (s *State) get(h string) string {
 		v = s.f.declHeapConst(h, "0")
 		if h != "$nextref" {
 			s.f.heapNextref[v] = s.f.declHeapConst("$nextref", "0")
+			if ty, ok := s.f.heapGoType[h]; ok {
+				// entry value of a package-level variable: well-typed and allocated before entry
+				tv := s.f.tv(v, ty)
+				s.f.typeFacts(tv, true)
+				s.f.allocatedFactAt(tv, s.f.declHeapConst("$nextref", "0"))
+			}
 		}
 	case stChild:
 		v = s.parent.get(h)
